@@ -540,6 +540,13 @@ fn values_for(slot: &Slot, d: &Domain, thorough: bool, inferred: Option<ColType>
             }
         }
     }
+    // inside a CTE body the grammar's recursive terms count up (`n + 1 ... WHERE n < k`, `r.d + 1 ... WHERE r.d < k`):
+    // a step of 0 or -1 makes the recursion legitimately non-terminating (UNION ALL grows without bound), which is
+    // not a behaviour this check can compare - such values are not bound there (the original literal always is)
+    if slot.place.contains("cte") {
+        let orig = slot.original.clone();
+        out.retain(|v| *v == orig || !matches!(v, Value::Int(i) if *i <= 0));
+    }
     out
 }
 
